@@ -66,6 +66,7 @@ type itr struct {
 	worldExt   map[string]string // methods of the translated struct itself kept as state-threading externs
 	effFn      map[string]string // package-level functions (`toIds`, `ecs.TypeID`) kept as state-threading externs; object arguments are dropped
 	inject     map[string]string // concrete type -> injection into an interface-typed location (uninterpreted constructor)
+	ptrInject  map[string]string // `*T` stored into an interface-typed field -> injection extern
 	assertExt  map[string]string // `x.(*T)` for a translated struct T -> extern (none = the assertion panics)
 	earlyItems string            // inside a loop with early returns: the loop state without the recorded result
 	srcExt     map[string]string // calls identified by their source text (`q.world.closeQuery`) kept as state-threading externs writing through their first argument
@@ -711,10 +712,31 @@ func (t *itr) expr(e ast.Expr, pre *[]string) string {
 		}
 		fields := []string{}
 		seen := map[string]bool{}
+		inView := func(string) bool { return true }
+		if nt, ok := tp.(*types.Named); ok {
+			if vw, ok := t.view[nt.Obj().Name()]; ok {
+				// only the fields of the view exist in the translated structure (a back pointer like `world` does not)
+				inView = func(n string) bool {
+					for _, f := range vw {
+						if f == n {
+							return true
+						}
+					}
+					return false
+				}
+			}
+		}
 		for i, el := range x.Elts {
 			if kv, ok := el.(*ast.KeyValueExpr); ok {
 				n := kv.Key.(*ast.Ident).Name
 				seen[n] = true
+				if !inView(n) {
+					continue
+				}
+				if inj := t.injectInto(st, n, kv.Value); inj != "" {
+					fields = append(fields, fmt.Sprintf("%s := (%s %s)", n, inj, t.expr(kv.Value, pre)))
+					continue
+				}
 				if id, ok := kv.Value.(*ast.Ident); ok && id.Name == "nil" {
 					fields = append(fields, fmt.Sprintf("%s := default", n)) // nil slice / map / interface / pointer
 				} else if u, ok := kv.Value.(*ast.UnaryExpr); ok && u.Op == token.AND && strings.HasPrefix(t.leanType(t.typeOf(kv.Value)), "Option (") {
@@ -729,7 +751,7 @@ func (t *itr) expr(e ast.Expr, pre *[]string) string {
 			}
 		}
 		for i := 0; i < st.NumFields(); i++ {
-			if !seen[st.Field(i).Name()] {
+			if !seen[st.Field(i).Name()] && inView(st.Field(i).Name()) {
 				fields = append(fields, fmt.Sprintf("%s := default", st.Field(i).Name()))
 			}
 		}
@@ -869,8 +891,16 @@ func (t *itr) call(x *ast.CallExpr, pre *[]string, wantValue bool) string {
 			for _, a := range x.Args {
 				args = append(args, t.expr(a, pre))
 			}
+			extArgs := ""
+			for _, e := range t.needExt[id.Name] {
+				if t.curEff && t.stateful(e) {
+					extArgs += " (" + e + " ext)"
+				} else {
+					extArgs += " " + e
+				}
+			}
 			v := t.tmp("r")
-			*pre = append(*pre, fmt.Sprintf("let %s ← %s %s", v, id.Name, strings.Join(args, " ")))
+			*pre = append(*pre, fmt.Sprintf("let %s ← %s%s %s", v, id.Name, extArgs, strings.Join(args, " ")))
 			return v
 		}
 		return t.fail("unsupported call %s", id.Name)
@@ -3002,10 +3032,11 @@ func genPools(repo string, tiny bool) (string, []string) {
 	t.structs["Component"] = true
 	t.structs["batchArchetypes"] = true
 	t.assertExt = map[string]string{"batchArchetypes": "asBatchF"}
+	t.ptrInject = map[string]string{"batchArchetypes": "ofBatchF"}
 	for _, f := range []string{"Query.countEntities", "Query.Count", "Query.entityAt", "Query.EntityAt", "World.exchangeArch", "World.exchangeBatchNoNotify", "World.setRelationArch", "World.setRelationBatchNoNotify"} {
 		t.joinIf[f] = true
 	}
-	for _, f := range []string{"World.exchangeArch", "World.exchangeBatchNoNotify", "World.setRelationArch", "World.setRelationBatchNoNotify", "World.newEntities", "World.newEntityTarget", "World.copyTo", "World.closeQuery", "World.assign", "World.notifyQuery", "World.exchangeBatch", "World.setRelationBatch"} {
+	for _, f := range []string{"World.exchangeArch", "World.exchangeBatchNoNotify", "World.setRelationArch", "World.setRelationBatchNoNotify", "World.newEntities", "World.newEntityTarget", "World.copyTo", "World.closeQuery", "World.assign", "World.notifyQuery", "World.exchangeBatch", "World.setRelationBatch", "World.exchangeBatchQuery", "World.setRelationBatchQuery"} {
 		t.usesEff[f] = true
 		t.joinIf[f] = true
 	}
@@ -3027,7 +3058,7 @@ func genPools(repo string, tiny bool) (string, []string) {
 	t.structs["EntityEvent"] = true
 	t.effExt["archetype.Remove"] = "archRemoveF"
 	t.nilChecks = map[string]bool{}
-	for _, f := range []string{"World.exchangeBatch", "World.setRelationBatch", "World.notifyQuery", "World.assign", "World.closeQuery", "World.copyTo", "World.newEntityTarget", "World.newEntities", "World.exchangeArch", "World.exchangeBatchNoNotify", "World.setRelationArch", "World.setRelationBatchNoNotify", "Query.setArchetype", "Query.stepArchetype", "Query.nextArchetypeSimple", "Query.nextArchetypeFiltered", "Query.nextArchetypeBatch", "Query.nextBatch", "Query.nextNode", "Query.nextNodeOrArchetype", "Query.nextArchetype", "Query.Next",
+	for _, f := range []string{"World.exchangeBatchQuery", "World.setRelationBatchQuery", "World.exchangeBatch", "World.setRelationBatch", "World.notifyQuery", "World.assign", "World.closeQuery", "World.copyTo", "World.newEntityTarget", "World.newEntities", "World.exchangeArch", "World.exchangeBatchNoNotify", "World.setRelationArch", "World.setRelationBatchNoNotify", "Query.setArchetype", "Query.stepArchetype", "Query.nextArchetypeSimple", "Query.nextArchetypeFiltered", "Query.nextArchetypeBatch", "Query.nextBatch", "Query.nextNode", "Query.nextNodeOrArchetype", "Query.nextArchetype", "Query.Next",
 		"Query.countEntities", "Query.Count", "Query.entityAt", "Query.EntityAt", "World.findArchetypeSlow", "World.findOrCreateArchetypeSlow", "World.findOrCreateArchetype", "World.NewEntity", "World.notifyExchange", "World.exchange", "World.newEntitiesNoNotify", "World.removeEntities", "World.getExchangeMask", "World.exchangeNoNotify", "World.createArchetype", "World.setRelation", "World.RemoveEntity", "World.removeArchetype", "World.cleanupArchetype", "World.cleanupArchetypes", "World.createEntity", "World.createEntities", "World.Has", "World.HasUnchecked", "World.Mask",
 		"World.relationError", "World.checkRelation", "World.getRelation", "World.getRelationUnchecked"} {
 		t.nilChecks[f] = true
@@ -3068,6 +3099,7 @@ func genPools(repo string, tiny bool) (string, []string) {
 		"staleF":               {"stale.entityIndex", "Nat → entityIndex"},
 		"archResetF":           {"eff.archReset", "Ext → Option Nat → Ext × Unit"},
 		"asBatchF":             {"assert.batch", "GoAny → Option batchArchetypes"},
+		"ofBatchF":             {"inject.batch", "batchArchetypes → GoAny"},
 		"notifyQueryF":         {"eff.notifyQuery", "Ext → World → batchArchetypes → Ext × World × Unit"},
 		"archSetF":             {"eff.archSet", "Ext → Option Nat → BitVec 32 → BitVec 8 → GoAny → Ext × GoAny"},
 		"nextBatchF":           {"eff.nextBatch", "Ext → Query → Ext × Query × Bool"},
@@ -3148,6 +3180,7 @@ func genPools(repo string, tiny bool) (string, []string) {
 		"batchArchetypes.Get", "batchArchetypes.Len", "batchArchetypes.Add", "World.exchangeArch", "World.exchangeBatchNoNotify", "World.setRelationArch", "World.setRelationBatchNoNotify", "World.newEntities", "World.newEntityTarget", "World.copyTo", "World.notifyQuery", "World.exchangeBatch", "World.setRelationBatch", "World.closeQuery", "World.assign", "Query.countEntities", "Query.Count", "Query.entityAt", "Query.EntityAt",
 		"Query.checkNext", "Query.setArchetype", "Query.stepArchetype", "Query.nextArchetypeSimple", "Query.nextArchetypeFiltered",
 		"Query.nextArchetypeBatch", "Query.nextBatch", "Query.nextNode", "Query.nextNodeOrArchetype", "Query.nextArchetype", "Query.Next",
+		"newBatchQuery", "World.exchangeBatchQuery", "World.setRelationBatchQuery",
 	}
 	// which functions need the uninterpreted-function parameters (directly or through a callee)
 	calls := map[string][]string{}
@@ -3165,6 +3198,11 @@ func genPools(repo string, tiny bool) (string, []string) {
 			}
 			if _, viaSrc := t.srcExt[types.ExprString(call.Fun)]; viaSrc {
 				return true // kept outside by its source text: its own parameters do not propagate
+			}
+			if id, ok := call.Fun.(*ast.Ident); ok {
+				if _, own := ecs.funcs[id.Name]; own {
+					calls[f] = append(calls[f], id.Name)
+				}
 			}
 			if sel, ok := call.Fun.(*ast.SelectorExpr); ok {
 				rt := t.typeOf(sel.X)
@@ -3500,6 +3538,29 @@ func (t *itr) checkSubscriptionBodies() string {
 	} {
 		if !strings.Contains(norm, want) {
 			return "event.Subscription method changed: expected `" + want + "`"
+		}
+	}
+	return ""
+}
+
+// injectInto: a pointer to a translated struct stored into an interface-typed field (`nodeArchetypes: archetype`) goes
+// through the uninterpreted injection that is the other direction of the type assertion `x.(*T)` (`assertExt`).
+func (t *itr) injectInto(st *types.Struct, field string, val ast.Expr) string {
+	if t.ptrInject == nil {
+		return ""
+	}
+	for i := 0; i < st.NumFields(); i++ {
+		if st.Field(i).Name() != field {
+			continue
+		}
+		if _, isIface := st.Field(i).Type().Underlying().(*types.Interface); !isIface {
+			return ""
+		}
+		vt := t.typeOf(val)
+		if p, ok := vt.(*types.Pointer); ok {
+			if nt, ok := p.Elem().(*types.Named); ok {
+				return t.ptrInject[nt.Obj().Name()]
+			}
 		}
 	}
 	return ""
